@@ -90,7 +90,11 @@ var ixFonts = []string{
 }
 
 var ixDirs = []string{"", "sub", "sub/deep", "other", "other/x"}
-var ixNames = []string{"a.ttf", "b.otf", "c.ttc", "d.dfont", "e.woff", "f.txt", ".hidden.ttf", "g.afm", "h.TTF", "noext", "i.pcf.gz"}
+
+// names that differ only by case or by a trailing blank / Unicode normalisation are different
+// files on the file systems fonts live on
+var ixNames = []string{"a.ttf", "b.otf", "c.ttc", "d.dfont", "e.woff", "f.txt", ".hidden.ttf", "g.afm", "h.TTF", "noext", "i.pcf.gz",
+	"A.ttf", "B.otf", "a.TTF", "a .ttf", "\u00e9.ttf", "e\u0301.ttf"}
 
 func ixPath(r *kernel.Rand) string {
 	return filepath.Join(kernel.Pick(r, ixDirs), kernel.Pick(r, ixNames))
@@ -156,7 +160,7 @@ func (e *ixEngine) Generate(seed uint64, tier string, run int) (json.RawMessage,
 	n := rk.Range(3, 15)
 	faulty := rk.Chance(0.6)
 	for len(c.Steps) < n+3 {
-		w := []int{5, 3, 4, 3, 3, 1, 1, 2, 8, 0, 0, 0, 0, 0, 0, 2, 1, 1}
+		w := []int{5, 3, 4, 3, 3, 1, 1, 2, 8, 0, 0, 0, 0, 0, 0, 2, 1, 1, 2}
 		if faulty {
 			w[9], w[10], w[11] = 4, 2, 2
 		}
@@ -213,6 +217,10 @@ func (e *ixEngine) Generate(seed uint64, tier string, run int) (json.RawMessage,
 			default:
 				c.Steps = append(c.Steps, IXStep{K: "retarget", P: kernel.Pick(rg, []string{"link", filepath.Join(kernel.Pick(rg, ixDirs), "dirlink")}), P2: kernel.Pick(rg, ixDirs[1:])})
 			}
+		case 18: // cp -p / archive extraction: a new file carries the modification time of another one
+			p := ixPath(rg)
+			files = append(files, p)
+			c.Steps = append(c.Steps, IXStep{K: "add_same_stamp", P: p, P2: someFile(), Font: kernel.Pick(rg, ixFonts)})
 		case 17: // a path changes kind: a file where a directory was, or the reverse
 			c.Steps = append(c.Steps, IXStep{K: "swapkind", P: kernel.Pick(rg, append(append([]string{}, ixDirs[1:]...), someFile())), Font: kernel.Pick(rg, ixFonts)})
 		}
@@ -504,6 +512,16 @@ func (w *ixWorld) step(st *IXStep, roots []string) (*kernel.Violation, error) {
 		w.out.Count("probe.half_copied_font", 1)
 	case "junk":
 		w.writeFile(st.P, junkBytes(st.N), false)
+	case "add_same_stamp":
+		if st2, ok := w.stamps[st.P2]; ok && st.P != st.P2 {
+			if _, exists := w.stamps[st.P]; !exists {
+				w.writeFile(st.P, corpus.Bytes(st.Font), false)
+				if _, ok := w.stamps[st.P]; ok {
+					w.stamps[st.P] = st2
+					w.out.Count("probe.new_file_with_the_mtime_of_another", 1)
+				}
+			}
+		}
 	case "replace_same_mtime":
 		if _, ok := w.stamps[st.P]; ok {
 			w.writeFile(st.P, corpus.Bytes(st.Font), true)
